@@ -964,14 +964,26 @@ def _newton_state(run, db):
     if len(mk_) != 1:
         # the set of unconverged rays is kept some other way (a boolean array, say): what is carried is not judged here
         raise AnalysisError('newton_raphson_solve_s: the index set of unconverged rays (arange(nrays)) is not found; the iteration state is not followed')
+    state_err = None
     if carried != set(mk_):
         # a working set of the unconverged rays carried along with (or instead of) their indices is another way of doing the same thing: what
         # it holds for which ray is the index-space rule's business (a global-sized array addressed with a local index is reported there);
         # this reading only knows the organisation in which nothing but the index set is carried
-        raise AnalysisError('newton_raphson_solve_s: the iteration carries %s, not only the index set of unconverged rays; the iteration state is not followed' % sorted(carried))
-    run.ok('C19.normal', fn.qual, 'only the index set of unconverged rays is carried between Newton iterations (the step lengths live in sj)')
+        state_err = 'newton_raphson_solve_s: the iteration carries %s, not only the index set of unconverged rays; the iteration state is not followed' % sorted(carried)
+    else:
+        run.ok('C19.normal', fn.qual, 'only the index set of unconverged rays is carried between Newton iterations (the step lengths live in sj)')
+    # a tolerance test spelled np.isclose / np.allclose brings numpy's default RELATIVE tolerance (1e-5) with it unless rtol=0 is given:
+    # the iteration then stops as soon as the step is below 1e-5 |s| instead of eps
+    close = [n for n in ast.walk(loops[0]) if isinstance(n, ast.Call) and ast.unparse(n.func).split('.')[-1] in ('isclose', 'allclose')
+             and any(isinstance(x, ast.Name) and x.id == 'eps' for x in ast.walk(n))]
+    for c in close:
+        rt = [k.value for k in c.keywords if k.arg == 'rtol'] + (list(c.args[2:3]) if len(c.args) > 2 else [])
+        zero = bool(rt) and isinstance(rt[0], ast.Constant) and rt[0].value == 0
+        run.check(zero, 'C19.normal', fn.qual, 'convergence test', 'the closeness test `%s` is absolute (rtol=0)' % ast.unparse(c)[:80],
+                  'the convergence test `%s` keeps numpy\'s default relative tolerance rtol=1e-5: a ray is declared converged when its Newton step is below 1e-5 |s| rather than eps, '
+                  'and the point returned sits off the surface by that much' % ast.unparse(c)[:80], fn.loc(c))
     tests = [n for n in ast.walk(loops[0]) if isinstance(n, ast.Compare) and len(n.ops) == 1 and any(isinstance(x, ast.Name) and x.id == 'eps' for x in ast.walk(n))]
-    if not tests:
+    if not tests and not close:
         raise AnalysisError('newton_raphson_solve_s: convergence test against eps not found')
     for c in tests:
         lhs, op, rhs = c.left, c.ops[0], c.comparators[0]
@@ -981,6 +993,8 @@ def _newton_state(run, db):
         run.check(ok, 'C19.normal', fn.qual, 'convergence test', 'a ray counts as converged when the MAGNITUDE of its Newton step is below eps (`%s`, left side provably >= 0)' % ast.unparse(c),
                   'the convergence test `%s` compares a signed quantity with eps: every ray whose Newton step is negative (negative sag with +z rays, rays travelling in -z, an '
                   'overshooting step) is declared converged at once and its tangent-plane point is returned as the intersection' % ast.unparse(c), fn.loc(c))
+    if state_err:
+        raise AnalysisError(state_err)
 
 
 def closure_gradient_rules(run, db):
